@@ -74,7 +74,7 @@ var c17Kinds = []string{"unary_b", "unary_b", "unary_b", "unary_rand", "unary_ra
 	"html_landing", "html_describe", "html_404", "json_401", "health"}
 
 func genC17(t *rapid.T) c17Case {
-	c := c17Case{Level: []int{-1, 0, 1, 1, 2, 2, 3, 3, 4, 4}[rapid.IntRange(0, 9).Draw(t, "level")]}
+	c := c17Case{Level: []int{-1, 0, 1, 1, 2, 2, 3, 3, 4, 4, 5, 7, 9, 11, 12, 22}[rapid.IntRange(0, 15).Draw(t, "level")]}
 	c.Main = genC17Pair(t)
 	c.Body.Kind = c17Kinds[rapid.IntRange(0, len(c17Kinds)-1).Draw(t, "kind")]
 	thorough := isThorough()
@@ -119,6 +119,7 @@ func genC17(t *rapid.T) c17Case {
 type c17Server struct {
 	h        *vgirpc.HttpServer
 	fixedRaw []byte // identity body of the fixed small request
+	refused  bool   // SetCompressionLevel returned an error
 }
 
 var (
@@ -142,15 +143,15 @@ func c17GetServer(level int, rejectAuth bool) *c17Server {
 	if err != nil {
 		panic(err)
 	}
-	if err := h.SetCompressionLevel(level); err != nil {
-		panic(fmt.Sprintf("SetCompressionLevel(%d): %v", level, err))
-	}
+	// A level the server cannot do may be refused; the server then stays at its
+	// default (compression on). One it accepts has to work like any other.
+	refused := h.SetCompressionLevel(level) != nil
 	if rejectAuth {
 		h.SetAuthenticate(func(r *http.Request) (*vgirpc.AuthContext, error) {
 			return nil, &vgirpc.RpcError{Type: "ValueError", Message: "no credentials"}
 		})
 	}
-	s := &c17Server{h: h}
+	s := &c17Server{h: h, refused: refused}
 	if !rejectAuth {
 		r := doRequest(h, "POST", "/u_str", hdrList{{"Content-Type", lib.ArrowCT}}, c17FixedRequest(), true)
 		s.fixedRaw = r.Body
@@ -296,6 +297,13 @@ func runC17(c c17Case) (out lib.Outcome) {
 	reject := c.Body.Kind == "json_401"
 	srv := c17GetServer(c.Level, reject)
 	out.Label("body:"+c.Body.Kind, fmt.Sprintf("level:%d", c.Level))
+	if c.Level > 4 {
+		if srv.refused {
+			out.Label("level-above-4:refused")
+		} else {
+			out.Label("level-above-4:accepted")
+		}
+	}
 
 	method, path, hdr, body := c17Request(c.Body)
 	ident := doRequest(srv.h, method, path, hdr, body, true)
@@ -416,7 +424,7 @@ func runC17(c c17Case) (out lib.Outcome) {
 
 var propC17 = lib.Prop[c17Case]{
 	ID: "C17",
-	Rule: "header pairs from a grammar (tokens zstd/gzip/identity/br/deflate/*/x-foo/empty, random case, OWS, ;q= and other parameters incl. q=0, duplicates, 0-6 tokens, either header absent or empty) x SetCompressionLevel in {-1,0,1,2,3,4} x response bodies (unary binary 0 B-256 KiB [2 MiB thorough] compressible, pseudo-random text, RPC error, producer stream, describe, 404/415 Arrow errors, HTML landing/describe/404 pages, JSON 401, health JSON); every case also judges 6-12 further header pairs against a small fixed Arrow body and probes each codec on the custom header. " +
+	Rule: "header pairs from a grammar (tokens zstd/gzip/identity/br/deflate/*/x-foo/empty, random case, OWS, ;q= and other parameters incl. q=0, duplicates, 0-6 tokens, either header absent or empty) x SetCompressionLevel in {-1,0,1,2,3,4,5,7,9,11,12,22} (a level the server refuses leaves it at its default; one it accepts is judged like any other) x response bodies (unary binary 0 B-256 KiB [2 MiB thorough] compressible, pseudo-random text, RPC error, producer stream, describe, 404/415 Arrow errors, HTML landing/describe/404 pages, JSON 401, health JSON); every case also judges 6-12 further header pairs against a small fixed Arrow body and probes each codec on the custom header. " +
 		"Oracle: reference negotiate() written from the doc comment gives (codec, custom-header stamp); exactly that stamp and only on Arrow bodies; body decoded with the harness decoder equals the identity response of the same request; VGI-Supported-Encodings equals the probed set. " +
 		"Non-trivial: compression on, both headers with >=2 tokens, winning codec not first in the merged client order.",
 	Gen:          genC17,
